@@ -128,10 +128,16 @@ def showRedStatus : RedStatus → String
 
 def showKey (k : Key) : String := s!"{k.wallet}:{k.script}"
 
-/-- two pending requests of the event set with the same `RequestedAt`: their relative order
-    depends on Go's map iteration order, the model declines to predict (monitor still applies) -/
+/-- Two pending, not yet timed-out requests of the event set with the same `RequestedAt`: their
+    relative order after the stable sort is Go's map iteration order. With a limit that cuts inside
+    the tie, or a failing delay lookup for one of them, the outcome (which request is proposed /
+    whether the failing lookup is reached at all) legitimately depends on that order, so the model
+    declines to predict (the monitor still applies). Timed-out requests are skipped without any
+    lookup or output, so ties among them are harmless. `err:pending` is order independent. -/
 def hasTie (cfg : RedCfg) (keys : List Key) : Bool :=
-  let ts := keys.filterMap (fun k => match cfg.pending k with | .found t => some t | _ => none)
+  let ts := keys.filterMap (fun k => match cfg.pending k with
+    | .found t => if timedOut cfg ⟨k, t⟩ then none else some t
+    | _ => none)
   ts.eraseDups.length != ts.length
 
 def runRed (i : RedIn) (fmt : Pending → String) : String :=
@@ -140,7 +146,7 @@ def runRed (i : RedIn) (fmt : Pending → String) : String :=
   | some evs =>
     let keys := mapKeys evs
     let r := findPendingRedemptions i.cfg keys
-    if r.1 == .ok && hasTie i.cfg keys then "SKIP" else
+    if r.1 != .errPending && hasTie i.cfg keys then "SKIP" else
     showRedStatus r.1 ++ " " ++ showList (r.2.map fmt)
 
 /-! ## generator -/
@@ -167,32 +173,6 @@ def parseGenRes (s : String) : Option GenRes :=
   | _ => none
 
 /-! ## entry points -/
-
-def model (line : String) : String :=
-  match splitWs line with
-  | ["dep", w, mx, ss, su, ma, ev, rq, cf] =>
-    match parseDepIn w mx ss su ma ev rq cf with
-    | some i => runDep i showDeposit false
-    | none => "bad-op"
-  | ["dsweep", w, mx, ma, ev, rq, cf] =>
-    match parseDepIn w mx "1" "1" ma ev rq cf with
-    | some i => if i.wallet = 0 then "err:wallet-required -" else runDep i showDepRef true
-    | none => "bad-op"
-  | ["red", w, cur, lim, to, ma, avg, ev, pd, dl] =>
-    match parseRedIn w cur lim to ma avg ev pd dl with
-    | some i => runRed i (fun p => showKey p.key)
-    | none => "bad-op"
-  | ["rtask", w, cur, lim, to, ma, avg, ev, pd, dl] =>
-    match parseRedIn w cur lim to ma avg ev pd dl with
-    | some i => if i.wallet = 0 then "err:wallet-required -" else runRed i (fun p => toString p.key.script)
-    | none => "bad-op"
-  | ["gen", ts, cl] =>
-    match (splitList ts).mapM parseTask, parseNats cl with
-    | some tasks, some checklist =>
-      let r := generate tasks checklist
-      showGen r.1 ++ " " ++ showList r.2
-    | _, _ => "bad-op"
-  | _ => "bad-op"
 
 def verdict (b : Bool) (why : String) : String := if b then "ok" else "FAIL " ++ why
 
@@ -248,6 +228,105 @@ def monitorRed (i : RedIn) (obs : String) (withWallet : Bool) : String :=
       | _, none => "FAIL unparsable-observation"
   | _ => "FAIL unparsable-observation"
 
+/-! ## Generate over the real tasks (`full`) -/
+
+structure FullIn where
+  checklist : List Nat
+  dep : DepIn
+  red : RedIn
+
+def parseFullIn (cl dmax dma dev drq dcf cur lim to ma avg ev pd dl : String) : Option FullIn := do
+  let c ← parseNats cl
+  let d ← parseDepIn "1" dmax "1" "1" dma dev drq dcf
+  let r ← parseRedIn "1" cur lim to ma avg ev pd dl
+  if d.minAgeErr || d.events.isNone || r.events.isNone then none else pure ⟨c, d, r⟩
+
+def fullDepRes (i : FullIn) : DepStatus × List Deposit := findDeposits i.dep.cfg 1 (i.dep.events.getD [])
+def fullRedKeys (i : FullIn) : List Key := mapKeys (i.red.events.getD [])
+def fullRedRes (i : FullIn) : RedStatus × List Pending := findPendingRedemptions i.red.cfg (fullRedKeys i)
+
+def showFull (i : FullIn) (d : DepStatus × List Deposit) (r : RedStatus × List Pending) (g : GenRes) : String :=
+  match g with
+  | .noop => "noop -"
+  | .proposal 0 => "sweep " ++ showList (d.2.map showDepRef)
+  | .proposal _ => "redeem " ++ showList (r.2.map (fun p => toString p.key.script))
+  | .error 0 => "err:0 " ++ ((showDepStatus d.1).drop 4).toString
+  | .error _ => "err:1 " ++ ((showRedStatus r.1).drop 4).toString
+
+def runFull (i : FullIn) : String :=
+  let d := fullDepRes i
+  let r := fullRedRes i
+  let g := generate (fullTasks d r) i.checklist
+  -- the redemption task ran and its outcome depends on the map order: decline
+  if g.2.contains 1 && r.1 != .errPending && hasTie i.red.cfg (fullRedKeys i) then "SKIP"
+  else showFull i d r g.1
+
+/-- monitor: the deposit outcome is the closed form `depSpec`; the redemption outcome is the
+    model's, or — with tied request times, where it depends on the map order — any outcome; the
+    result must be what `genSpec` gives for these outcomes, and the proposal's content must satisfy
+    the discovery monitors. -/
+def monitorFull (i : FullIn) (obs : String) : String :=
+  match splitWs obs with
+  | [kind, items] =>
+    let d := depSpec i.dep.cfg 1 (i.dep.events.getD [])
+    let keys := fullRedKeys i
+    let rModel := fullRedRes i
+    let tie := rModel.1 != .errPending && hasTie i.red.cfg keys
+    let redOutcomes : List Outcome := if tie then [.proposal, .empty, .error] else [redOutcome rModel]
+    let allowed : List GenRes :=
+      redOutcomes.map (fun o => (genSpec [⟨2, sweepOutcome d⟩, ⟨3, o⟩] i.checklist).1)
+    if kind == "noop" then verdict (allowed.contains .noop && items == "-") "generate-not-first-success"
+    else if kind == "sweep" then
+      verdict (allowed.contains (.proposal 0) && items == showList (d.2.map showDepRef))
+        "generate-not-first-success-or-wrong-deposits"
+    else if kind == "redeem" then
+      match (splitList items).mapM (parsePendingObs i.red.cfg false 1) with
+      | some ps =>
+        verdict (allowed.contains (.proposal 1) && !ps.isEmpty && holdsRed i.red.cfg keys (.ok, ps))
+          "generate-not-first-success-or-wrong-redemptions"
+      | none => "FAIL unparsable-observation"
+    else if kind == "err:0" then
+      verdict (allowed.contains (.error 0) && items == ((showDepStatus d.1).drop 4).toString) "generate-error-rule"
+    else if kind == "err:1" then
+      verdict (allowed.contains (.error 1) &&
+        ((items == "pending" && holdsRed i.red.cfg keys (.errPending, [])) ||
+         (items == "delay" && holdsRed i.red.cfg keys (.errDelay, [])))) "generate-error-rule"
+    else "FAIL unparsable-observation"
+  | _ => "FAIL unparsable-observation"
+
+def fullModel (cl dmax dma dev drq dcf cur lim to ma avg ev pd dl : String) : String :=
+  match parseFullIn cl dmax dma dev drq dcf cur lim to ma avg ev pd dl with
+  | some i => runFull i
+  | none => "bad-op"
+
+def model (line : String) : String :=
+  match splitWs line with
+  | ["dep", w, mx, ss, su, ma, ev, rq, cf] =>
+    match parseDepIn w mx ss su ma ev rq cf with
+    | some i => runDep i showDeposit false
+    | none => "bad-op"
+  | ["dsweep", w, mx, ma, ev, rq, cf] =>
+    match parseDepIn w mx "1" "1" ma ev rq cf with
+    | some i => if i.wallet = 0 then "err:wallet-required -" else runDep i showDepRef true
+    | none => "bad-op"
+  | ["red", w, cur, lim, to, ma, avg, ev, pd, dl] =>
+    match parseRedIn w cur lim to ma avg ev pd dl with
+    | some i => runRed i (fun p => showKey p.key)
+    | none => "bad-op"
+  | ["rtask", w, cur, lim, to, ma, avg, ev, pd, dl] =>
+    match parseRedIn w cur lim to ma avg ev pd dl with
+    | some i => if i.wallet = 0 then "err:wallet-required -" else runRed i (fun p => toString p.key.script)
+    | none => "bad-op"
+  | ["gen", ts, cl] =>
+    match (splitList ts).mapM parseTask, parseNats cl with
+    | some tasks, some checklist =>
+      let r := generate tasks checklist
+      showGen r.1 ++ " " ++ showList r.2
+    | _, _ => "bad-op"
+  | ["full", cl, dmax, dma, dev, drq, dcf, cur, lim, to, ma, avg, ev, pd, dl] =>
+    fullModel cl dmax dma dev drq dcf cur lim to ma avg ev pd dl
+  | _ => "bad-op"
+
 def monitor (op obs : String) : String :=
   match splitWs op with
   | ["dep", w, mx, ss, su, ma, ev, rq, cf] =>
@@ -277,6 +356,10 @@ def monitor (op obs : String) : String :=
     | none, _, _ => "FAIL bad-op"
     | _, none, _ => "FAIL bad-op"
     | _, _, _ => "FAIL unparsable-observation"
+  | ["full", cl, dmax, dma, dev, drq, dcf, cur, lim, to, ma, avg, ev, pd, dl] =>
+    match parseFullIn cl dmax dma dev drq dcf cur lim to ma avg ev pd dl with
+    | some i => monitorFull i obs
+    | none => "FAIL bad-op"
   | _ => "FAIL bad-op"
 
 def main (args : List String) : IO UInt32 := driverMain model monitor args
